@@ -243,8 +243,13 @@ func analyse(o *observation) []viol {
 			}
 		}
 
-		// (F) outcomes handed to the finish functions
+		// (F) outcomes handed to the finish functions. A phase that the library
+		// gave up because another extension's start hook failed has no outcome of
+		// its own: what its finish functions receive then is not stated (don't-care).
 		for _, f := range v.by[hPF] {
+			if firedHook(fired, hPS) {
+				break
+			}
 			if want := class == clSyntax; f.ErrNil == want {
 				add(viol{Sig: "outcome:" + hPF, Kind: "outcome", Ext: ei, Hook: hPF, Msg: fmt.Sprintf("%s: ParseFinish received err==nil:%v for a request of class %s", tag, f.ErrNil, class)})
 			} else if want && !contains(msgs, f.Arg) {
@@ -252,6 +257,9 @@ func analyse(o *observation) []viol {
 			}
 		}
 		for _, f := range v.by[hVF] {
+			if firedHook(fired, hVS) {
+				break
+			}
 			if class == clValidation {
 				if len(f.Msgs) == 0 {
 					add(viol{Sig: "outcome:" + hVF, Kind: "outcome", Ext: ei, Hook: hVF, Msg: tag + ": ValidationFinish received no errors for an invalid document"})
@@ -428,6 +436,15 @@ func analyse(o *observation) []viol {
 		}
 	}
 	return vs
+}
+
+func firedHook(fs []fault, h string) bool {
+	for _, f := range fs {
+		if f.Hook == h {
+			return true
+		}
+	}
+	return false
 }
 
 func mentionsAny(m string, fs []fault) bool {
